@@ -4,8 +4,10 @@
     just produced.  Exact unbounded integer arithmetic on Coq's SpecFloat doubles; correctly
     rounded (round-half-even on the exact binary value) like glibc.  These are what the
     extracted model runs; they are validated against glibc by the correspondence check on
-    every number that flows through any case.  They are NOT proved, and no proof unfolds
-    them: the theorems quantify over every libc satisfying [PrintDefs.LibcPrintSpec].
+    every number that flows through any case.  The property theorems do not unfold them: they
+    quantify over every libc satisfying the named contracts ([PrintDefs.LibcPrintSpec],
+    [RoundTripNum.LibcRoundTripSpec]); that THESE reference functions satisfy the round-trip
+    contract is proved separately (LibcG17*.v, LibcG15*.v: [ref_roundtrip_spec]).
     No proofs here. *)
 From Coq Require Import ZArith List Bool Floats.SpecFloat.
 From CJ Require Import Base Dbl LibcNum.
